@@ -13,6 +13,7 @@ import (
 	"github.com/pion/logging"
 	"github.com/pion/stun/v3"
 	"github.com/pion/transport/v4"
+	"github.com/pion/transport/v4/deadline"
 	"github.com/pion/turn/v5/internal/proto"
 )
 
@@ -46,7 +47,7 @@ type allocation struct {
 	net               transport.Net         // Thread-safe
 	refreshAllocTimer *PeriodicTimer        // Thread-safe
 	refreshPermsTimer *PeriodicTimer        // Thread-safe
-	readTimer         *time.Timer           // Thread-safe
+	readDeadline      *deadline.Deadline    // Thread-safe
 	mutex             sync.RWMutex          // Thread-safe
 	log               logging.LeveledLogger // Read-only
 }
